@@ -154,9 +154,10 @@ func aliasAppends(p *core.Prog, typeName, field string) []string {
 }
 
 func c15(c *Ctx) {
+	lockPairing(c, "R-C15.6")
 	p, r := c.P, c.R
 	r.Rule("R-C15.1", "the listener's option slice is shared by all handshakes: either every store to InterceptingListener.options is capacity-exact (make+copy, x[:n:n], slices.Clip), or no append is reachable on a value that may alias it (loads, phis, re-slices, variadic forwarding into the fetch path)")
-	r.Rule("R-C15.2", "no field of InterceptingListener is written outside NewInterceptingListener")
+	r.Rule("R-C15.2", "no field of InterceptingListener, and nothing reached through such a field (l.baseTlsConf.X, ...), is written outside NewInterceptingListener")
 	r.Rule("R-C15.3", "the ClientInfo handed to the TLS callback is allocated inside the accept loop body (one per connection) and is used only by that iteration's callback and NewConn")
 	r.Rule("R-C15.4", "no package-level variable of protocol, tls, registration, types or the root package is written outside init (generated *.pb.go excluded: sync.Once-guarded protobuf runtime state)")
 	r.Rule("R-C15.5", "objects the application handed over in options (the listener passes one option list to every handshake) are never written: in the hand-written packages no store or map update, directly or in a helper (depth <= 2, parameters bound to arguments), has a target reached through a field of a parsed Options value (opts.WithState.Fields[k] = v, *opts.WithX = ...)")
@@ -200,6 +201,11 @@ func c15(c *Ctx) {
 				st, ok := in.(*ssa.Store)
 				if !ok {
 					continue
+				}
+				// an object the listener owns (l.baseTlsConf.NextProtos = ..., l.x.y[k] = ...):
+				// the target is reached through a field of a listener value
+				if tp := core.PathOf(st.Addr); len(tp.Fields) >= 2 && namedType(tp.Root.Type(), mod+"/protocol", "InterceptingListener") && core.FuncName(fn) != "protocol.NewInterceptingListener" {
+					r.Bad("R-C15.2", "store through InterceptingListener."+strings.Join(tp.Fields, ".")+" in "+core.FuncName(fn), p.Pos(st.Pos()), "an object owned by the listener is written after construction: it is shared by all concurrent handshakes (race; one connection's value is used for another)")
 				}
 				fa, ok := st.Addr.(*ssa.FieldAddr)
 				if !ok {
@@ -304,6 +310,7 @@ func c16(c *Ctx) {
 	r.Rule("R-C16.1", "the value stored to clientInfo.nextProtos is built from a zero-length slice by appending, in one range over hello.SupportedProtos, the loop element itself; the only test between the loop head and the append is HasPrefix(elem, certificate-preference prefix)")
 	r.Rule("R-C16.2", "clientInfo.clientState is assigned from the certificate function's response on its success edge; that response field is set behind C05's gate (evaluated here)")
 	r.Rule("R-C16.5", "the option that carries the list from Accept to NewConn is lossless: the closure of nodeenrollment.WithExtraAlpnProtos stores its argument itself, or an exact copy (make of the same length filled by copy, slices.Clone, append to nil), into Options.WithExtraAlpnProtos - no filtering, de-duplication or reordering")
+	r.Rule("R-C16.6", "the captured list is not modified in place on its way to the connection: no value aliasing ClientInfo.nextProtos, Conn.clientNextProtos or the ClientHello's SupportedProtos is handed to an in-place mutator (sort.*, slices.Sort*/Reverse/Compact*/Delete/Insert/Replace, copy as destination) or written by index, anywhere in package protocol")
 	r.Rule("R-C16.3", "Accept passes exactly the current connection's clientInfo.nextProtos and clientInfo.clientState to NewConn")
 	r.Rule("R-C16.4", "ClientNextProtos returns nil, an empty literal or a fresh make filled by copy; NewConn stores a fresh copy; neither aliases the caller's or the connection's slice")
 	r.NotDecided = append(r.NotDecided, "equality for every state structure (proto marshal/unmarshal round trip)", "large values")
@@ -490,6 +497,97 @@ func c16(c *Ctx) {
 		}
 		if n == 0 {
 			r.Unk("R-C16.5", "nodeenrollment.WithExtraAlpnProtos store", p.Pos(of.Pos()), "the option closure does not assign Options.WithExtraAlpnProtos")
+		}
+	}
+
+	// R-C16.6
+	{
+		isList := func(v ssa.Value) (string, bool) {
+			pp := core.PathOf(v)
+			last := strings.TrimPrefix(pp.Last(), "&")
+			switch last {
+			case "nextProtos", "clientNextProtos", "SupportedProtos":
+				return last, true
+			}
+			// a re-slice of such a list
+			if sl, ok := core.Strip(v).(*ssa.Slice); ok {
+				pp = core.PathOf(sl.X)
+				last = strings.TrimPrefix(pp.Last(), "&")
+				switch last {
+				case "nextProtos", "clientNextProtos", "SupportedProtos":
+					return last, true
+				}
+			}
+			return "", false
+		}
+		mutators := map[string]int{"sort.Strings": 0, "sort.Slice": 0, "sort.SliceStable": 0, "sort.Sort": 0, "sort.Stable": 0, "slices.Sort": 0, "slices.SortFunc": 0, "slices.SortStableFunc": 0,
+			"slices.Reverse": 0, "slices.Compact": 0, "slices.CompactFunc": 0, "slices.Delete": 0, "slices.DeleteFunc": 0, "slices.Insert": 0, "slices.Replace": 0, "builtin:copy": 0}
+		nBad, nFn := 0, 0
+		for _, fn := range p.ModuleFuncs() {
+			pk := fn.Package()
+			for f := fn; pk == nil && f.Parent() != nil; f = f.Parent() {
+				pk = f.Parent().Package()
+			}
+			if pk == nil || pk.Pkg.Path() != mod+"/protocol" || fn.Blocks == nil {
+				continue
+			}
+			nFn++
+			for _, b := range fn.Blocks {
+				for _, in := range b.Instrs {
+					switch x := in.(type) {
+					case *ssa.Call:
+						nm := core.CalleeName(x.Common())
+						if gi := strings.Index(nm, "["); gi > 0 {
+							nm = nm[:gi] // generic instantiation
+						}
+						ai, isMut := mutators[nm]
+						if !isMut || ai >= len(x.Call.Args) {
+							continue
+						}
+						arg := x.Call.Args[ai]
+						// sort.Sort(sort.StringSlice(x)): look through the conversion
+						if ct, ok := core.Strip(arg).(*ssa.ChangeType); ok {
+							arg = ct.X
+						}
+						if mi, ok := core.Strip(arg).(*ssa.MakeInterface); ok {
+							arg = mi.X
+							if ct, ok := core.Strip(arg).(*ssa.ChangeType); ok {
+								arg = ct.X
+							}
+						}
+						if which, ok := isList(arg); ok {
+							if nm == "builtin:copy" {
+								// filling the fresh slice this function has just made for the field is initialisation
+								fresh := false
+								for _, b2 := range fn.Blocks {
+									for _, in2 := range b2.Instrs {
+										if st, isSt := in2.(*ssa.Store); isSt {
+											if _, isMk := core.Strip(st.Val).(*ssa.MakeSlice); isMk && strings.TrimPrefix(core.PathOf(st.Addr).Last(), "&") == which {
+												fresh = true
+											}
+										}
+									}
+								}
+								if fresh {
+									continue
+								}
+							}
+							nBad++
+							r.Bad("R-C16.6", core.FuncName(fn)+" "+shortName(nm)+"("+which+")", p.Pos(x.Pos()), "the list the client offered is reordered / modified in place before it is reported (the slice is shared with the value handed to NewConn)")
+						}
+					case *ssa.Store:
+						if ia, ok := x.Addr.(*ssa.IndexAddr); ok {
+							if which, ok := isList(ia.X); ok {
+								nBad++
+								r.Bad("R-C16.6", core.FuncName(fn)+" element store into "+which, p.Pos(x.Pos()), "an element of the captured protocol list is overwritten")
+							}
+						}
+					}
+				}
+			}
+		}
+		if nBad == 0 {
+			r.OK("R-C16.6", "in-place modification of the captured protocol lists", "", fmt.Sprintf("none in %d functions of package protocol", nFn))
 		}
 	}
 
